@@ -17,7 +17,7 @@ import GV.Model.MultiAsset
     pols A         -> sorted policy ids
 -/
 namespace GV.Drv.C06
-open GV.Line GV.Model.MultiAsset GV.Lib.AssocMap
+open GV.Line GV.Model.MultiAsset GV.Lib.AssocMap GV.Lib.CborLite
 
 def parseAmt? (s : String) : Option Amt :=
   if s = "nil" then some none else (parseInt? s).map some
